@@ -78,6 +78,13 @@ def library(ctx, m): return library_ref(ctx.bytes_('lh', 32))
 def ord_over_library(ctx, m): return O(ctx, 'x', 4, [library_ref(ctx.bytes_('lh', 32))])
 
 
+@shape
+def max_over_pruned(ctx, m):
+    # the largest cell the format allows: 1023 data bits, 4 references, and (through the pruned child) a level mask whose
+    # stored hashes and depths - when an encoder writes them - make the serialised cell as long as it can get
+    return O(ctx, 'x', 1023, [sym_pruned(ctx, 'p', m), O(ctx, 'a', 1017, []), O(ctx, 'b', 3, []), O(ctx, 'c', 1016, [])])
+
+
 PAIR_SHAPES = {
     # two siblings of arbitrary, possibly incomparable, level masks below one parent
     'mupd_pruned': lambda ctx, a, b: sym_mupd(ctx, 'mu', sym_pruned(ctx, 'p', a), sym_pruned(ctx, 'q', b)),
